@@ -398,7 +398,10 @@ pub fn make_module() -> KMap {
 
         match ctx.instance_and_args(is_list, expected_error)? {
             (KValue::List(a), [KValue::List(b)]) => {
-                std::mem::swap(a.data_mut().deref_mut(), b.data_mut().deref_mut());
+                // Swapping a list with itself is a no-op, and its data can't be borrowed twice
+                if !a.is_same_instance(b) {
+                    std::mem::swap(a.data_mut().deref_mut(), b.data_mut().deref_mut());
+                }
                 Ok(KValue::Null)
             }
             (instance, args) => unexpected_args_after_instance(expected_error, instance, args),
